@@ -347,20 +347,21 @@ func (s *c08Store) Append(ctx context.Context, sid, stream string, data []byte) 
 	if m.Tag != "" {
 		s.run.gate("A:" + m.OS + "." + m.OR)
 	}
-	err := s.inner.Append(ctx, sid, stream, data)
-	s.mu.Lock()
-	k := sid + "/" + stream
-	idx := s.n[k]
-	if err == nil {
-		s.n[k]++
-	}
-	s.mu.Unlock()
 	tag := m.Tag
 	if m.Kind == "prime" {
 		tag = "prime"
 	}
 	if m.Kind == "resp" && tag == "" && m.RID == "1000" {
 		tag = s.run.sessName(sid) + ".init.resp"
+	}
+	// the append, its index and its log line are one atomic step of the ground truth
+	s.mu.Lock()
+	defer s.mu.Unlock()
+	err := s.inner.Append(ctx, sid, stream, data)
+	k := sid + "/" + stream
+	idx := s.n[k]
+	if err == nil {
+		s.n[k]++
 	}
 	s.run.log.emit("st.append", "s", s.run.sessName(sid), "sid", sid, "stream", stream, "idx", idx, "kind", m.Kind, "tag", tag, "err", err != nil)
 	return err
@@ -500,11 +501,14 @@ func (r *c08Run) setBusy(h *c08Handler, b bool) {
 // held at a gate inside the stream lock, others may be blocked on that mutex, which synctest does
 // not regard as durably blocked; then the goroutine states are polled instead.
 func (r *c08Run) settle() {
-	if r.held.Load() == 0 {
+	// A gate can only be reached while it is armed, and gates are armed by this goroutine only: with no
+	// gate armed or holding, nothing can end up blocked on a stream mutex behind a gate.
+	r.mu.Lock()
+	gated := len(r.gates) > 0
+	r.mu.Unlock()
+	if !gated && r.held.Load() == 0 {
 		synctest.Wait()
-		if r.held.Load() == 0 {
-			return
-		}
+		return
 	}
 	stable := 0
 	for i := 0; i < 20000; i++ {
@@ -610,6 +614,7 @@ func (r *c08Run) tool(ctx context.Context, req *mcp.CallToolRequest) (*mcp.CallT
 				r.mu.Lock()
 				h.busy, h.abort = false, nil
 				r.mu.Unlock()
+				r.disarm("A:" + key)
 				r.log.emit("h.sreq.end", "s", a.S, "r", a.R, "tag", tag, "err", c08Err(err))
 			case "ret":
 				r.mu.Lock()
@@ -715,7 +720,7 @@ func (r *c08Run) setup() error {
 		r.mu.Lock()
 		r.creating = s.Name
 		r.mu.Unlock()
-		r.log.emit("x.begin", "x", "i."+s.Name, "s", s.Name, "kind", "init", "method", "POST", "reqs", []string{"init"}, "target", "init", "leid", "", "lidx", -1, "stream", "?")
+		r.log.emit("x.begin", "x", "i."+s.Name, "s", s.Name, "kind", "init", "method", "POST", "reqs", []string{"init"}, "rids", []string{"1000"}, "target", "init", "leid", "", "lidx", -1, "stream", "?")
 		x := r.start("i."+s.Name, s.Name, "init", "POST", map[string]string{"Accept": c08AcceptBoth}, body)
 		r.settle()
 		r.mu.Lock()
@@ -804,7 +809,7 @@ func (r *c08Run) step(st []any) {
 			}
 		}
 		body := fmt.Sprintf(`{"jsonrpc":"2.0","id":%d,"method":"tools/call","params":{"name":"vt","arguments":{"s":%q,"r":%q}}}`, c08ReqID(rn), s.name, rn)
-		r.log.emit("x.begin", "x", "p."+s.name+"."+rn, "s", s.name, "kind", "call", "method", "POST", "reqs", []string{rn}, "target", rn, "leid", "", "lidx", -1, "stream", "?")
+		r.log.emit("x.begin", "x", "p."+s.name+"."+rn, "s", s.name, "kind", "call", "method", "POST", "reqs", []string{rn}, "rids", []string{strconv.Itoa(c08ReqID(rn))}, "target", rn, "leid", "", "lidx", -1, "stream", "?")
 		r.start("p."+s.name+"."+rn, s.name, "call", "POST", r.headers(s, c08AcceptBoth), body)
 	case "emit", "sreq", "ret":
 		r.mu.Lock()
@@ -925,7 +930,7 @@ func (r *c08Run) step(st []any) {
 		if target != "sa" {
 			reqs = []string{target}
 		}
-		r.log.emit("x.begin", "x", name, "s", s.name, "kind", "get", "method", "GET", "reqs", reqs, "target", target, "leid", leid, "lidx", lidx, "stream", stream)
+		r.log.emit("x.begin", "x", name, "s", s.name, "kind", "get", "method", "GET", "reqs", reqs, "rids", []string{}, "target", target, "leid", leid, "lidx", lidx, "stream", stream)
 		r.start(name, s.name, "get", "GET", h, "")
 	case "del", "delf":
 		s := r.sess[arg(1)]
@@ -951,13 +956,17 @@ func (r *c08Run) step(st []any) {
 		s.deleted = true
 		r.log.emit("del", "s", s.name)
 		r.start("d."+s.name, s.name, "del", "DELETE", r.headers(s, c08AcceptBoth), "")
-	case "gateA":
+	case "gateA", "gateF":
+		key := "A:" + arg(1) + "." + arg(2)
+		if op == "gateF" {
+			key = "F:" + arg(1)
+		}
 		r.mu.Lock()
-		r.gates["A:"+arg(1)+"."+arg(2)] = &c08Gate{ch: make(chan struct{})}
-		r.mu.Unlock()
-	case "gateF":
-		r.mu.Lock()
-		r.gates["F:"+arg(1)] = &c08Gate{ch: make(chan struct{})}
+		if g := r.gates[key]; g != nil && g.hit {
+			applied = false // that gate is holding a goroutine right now
+		} else {
+			r.gates[key] = &c08Gate{ch: make(chan struct{})}
+		}
 		r.mu.Unlock()
 	case "open":
 		applied = r.openGates()
